@@ -246,10 +246,77 @@ def r16_6(ctx):
         ctx.ob("R16.6", f"borrowing-site:{short(f.id)}:{t['callee'].rsplit('::', 1)[-1]}", ok, f.loc(t["ln"]), "borrowing visit is made by a function of the in-place parser only" if ok else "borrowing visit is reachable from the copying parser")
 
 
+TRANSPARENT = ("from", "deref", "deref_mut", "index", "index_mut", "as_ref", "as_mut", "as_ptr", "as_mut_ptr", "new_unchecked", "cast", "borrow", "borrow_mut", "into")
+
+
+def _ptr_origin(f, l, depth=0):
+    """where does the address held in local l come from?  follows copies, reborrows, field projections and
+    address-preserving calls (From::from, Deref, Index, as_ptr ...) to the first call that produces it"""
+    if depth > 30 or l is None:
+        return None
+    d = f.single_def(l)
+    if d is None:
+        return None
+    if d[0] == "call":
+        t = d[2]
+        nm = t["callee"].rsplit("::", 1)[-1]
+        if nm in TRANSPARENT and t["args"]:
+            p = op_place(t["args"][0])
+            return _ptr_origin(f, p[0], depth + 1) if p else None
+        return t
+    rv = d[3]["rv"]
+    if rv["k"] in ("use", "cast"):
+        p = op_place(rv["op"])
+        return _ptr_origin(f, p[0], depth + 1) if p else None
+    if rv["k"] in ("ref", "rawptr"):
+        return _ptr_origin(f, rv["p"][0], depth + 1)
+    return None
+
+
+def r16_7(ctx):
+    """(a) the root pointer a document hands out always points into its arena: every store to
+    DocumentVisitor.root comes from a bump allocation; (b) the arena only grows while values may point into
+    it: Bump::reset / dealloc-like calls do not occur"""
+    prog = ctx.prog()
+    stores = []
+    for f in prog.fns.values():
+        if f.crate != "sonic_rs" or not (f.self_adt or "").endswith("DocumentVisitor"):
+            continue
+        for b, i, s_ in f.assigns():
+            lhs = s_["lhs"]
+            names = [e[2] for e in lhs[1] if isinstance(e, list) and e[0] == "."]
+            if names[-1:] == ["root"] and "DocumentVisitor" in f.locals[lhs[0]]["ty"]:
+                stores.append((f, s_))
+        for b, t in f.calls():
+            d = t.get("dest")
+            if d and [e[2] for e in d[1] if isinstance(e, list) and e[0] == "."][-1:] == ["root"]:
+                stores.append((f, t))
+    ctx.floor("R16.7", "stores to DocumentVisitor.root", len(stores), 1)
+    k = 0
+    for f, s_ in stores:
+        k += 1
+        if "rv" in s_:
+            ls = [p[0] for p in rv_places(s_["rv"])]
+        else:
+            ls = [op_local(a) for a in s_["args"] if op_local(a) is not None]
+        origin = _ptr_origin(f, ls[0]) if ls else None
+        from_alloc = origin is not None and "bumpalo" in origin["callee"] and origin["callee"].rsplit("::", 1)[-1].startswith("alloc")
+        init = origin is not None and callee_is(origin, "dangling")
+        ctx.ob("R16.7", f"root-store:{short(f.id)}#{k}", from_alloc or init, f.loc(s_.get("ln")),
+               "the root pointer is the address of a bump allocation of this document's arena" if from_alloc else ("initial dangling placeholder" if init else
+               "the root pointer is set to memory that is not a bump allocation of the arena (e.g. the thread-local scratch buffer): the value dangles once the buffer is reused"))
+    resets = prog.callers_of(lambda t: "bumpalo" in t.get("callee", "") and t["callee"].rsplit("::", 1)[-1] in ("reset", "reset_with_limit", "dealloc", "shrink"))
+    ctx.ob("R16.7", "arena-never-reset", not resets, resets[0][0].loc(resets[0][2]["ln"]) if resets else "",
+           "the shared bump arena is never reset or shrunk (values of earlier parses keep pointing into it)" if not resets else
+           f"{short(resets[0][0].id)} resets the shared arena: every value produced earlier by the same deserializer dangles")
+    pc = prog.callers_of(lambda t: "bumpalo" in t.get("callee", "") and t["callee"].rsplit("::", 1)[-1].startswith("alloc"))
+    ctx.ob("R16.7", "positive-control:bump-calls-seen", len(pc) >= 3, "", f"{len(pc)} bump allocation call sites seen (the query resolves bumpalo calls)", nontrivial=False)
+
+
 def r16_w(ctx):
     """type-level witnesses (compile_fail doctests with error codes, each with a compiling twin)"""
     from ..core import witness_obligations
     witness_obligations(ctx, "R16.W", [('W4OwnedAreStatic', "Value and OwnedLazyValue are 'static + Send + Sync, LazyValue<'a> is not 'static"), ('W6AllocNeedsMut', 'the bump allocator needs &mut Shared')])
 
 
-RULES = [("R16.1", r16_1), ("R16.2", r16_2), ("R16.3", r16_3), ("R16.4", r16_4), ("R16.5", r16_5), ("R16.6", r16_6), ("R16.W", r16_w)]
+RULES = [("R16.1", r16_1), ("R16.2", r16_2), ("R16.3", r16_3), ("R16.4", r16_4), ("R16.5", r16_5), ("R16.6", r16_6), ("R16.7", r16_7), ("R16.W", r16_w)]
